@@ -13,7 +13,7 @@ import CtyModel.Lemmas.ValEqSymm
 import CtyModel.Lemmas.d03bLess
 import CtyModel.Lemmas.d03bCaps
 import CtyModel.Lemmas.d03bEncTop
-import CtyModel.Lemmas.d03bEqSet3
+import CtyModel.Lemmas.d03bEqFull
 namespace CtyModel
 namespace C03
 
@@ -1316,122 +1316,107 @@ example : D03b.G (.set (.set .string)) (.sset [7, 8] [.sset [1, 2] [.s "a", .s "
   ⟨⟨by decide +kernel, by decide +kernel, by decide +kernel⟩, rfl⟩
 
 
-/-! #### `Equals` on SET values, and sets of sets
+/-! #### `Equals` on values with sets at any depth
 
 `Value.Equals` on two sets looks every member of either set up in the other with
 `Has` (hash bucket, then `Equals` on the members) — a different algorithm from
-`RawEquals` (compare the two iteration orders position by position).  On
-well-formed set nodes (`Payload.setWF`, decidable: bucket ids = member hashes;
-members well-formed, mark-free, quotable, wholly known, integer numbers; pairwise
-not `RawEquals`; `Less` a strict total order on them) the two coincide.  Proved for
-members of a set-free element type — sets of strings, numbers, tuples, lists,
-objects — hence for SETS OF SETS of those (`D03b.sorted_match`,
-`D03b.setEquals_spec`: the member-level lemma is generic in the element type). -/
+`RawEquals` (compare the two iteration orders position by position).  On values
+all of whose set nodes are well-formed (`Payload.deepMember`, decidable: shaped,
+mark-free, quotable, wholly known, integer numbers; at every set node the bucket
+ids are the member hashes, no two members are `RawEquals`, and `Less` is a strict
+total order on the members) the two coincide — for sets of sets, lists of sets,
+objects with set attributes, to any depth (`D03b.equalsFuel_ok'`; the set branch
+is `D03b.setEquals_spec` over `D03b.sorted_match`). -/
 
-/-- **`Equals` = `RawEquals` on well-formed set values** (of set-free members): the
-clause "agrees with raw equality on wholly known values" for set-typed values. -/
-theorem equals_eq_rawEquals_sets (e : Ty) (hc : D03b.capFree e = true) (hp : e.plain = true) (ix iy : List Int)
-    (xs ys : List Payload) (wx : Payload.setWF e ix xs = true) (wy : Payload.setWF e iy ys = true) :
-    equals ⟨.set e, .sset ix xs⟩ ⟨.set e, .sset iy ys⟩ =
-      (rawEq ⟨.set e, .sset ix xs⟩ ⟨.set e, .sset iy ys⟩).map boolVal ∧
-    (equals ⟨.set e, .sset ix xs⟩ ⟨.set e, .sset iy ys⟩ = .ok (boolVal true) ↔
-      rawEq ⟨.set e, .sset ix xs⟩ ⟨.set e, .sset iy ys⟩ = .ok true) := by
-  have sx := D03b.setWF_spec hc wx
-  have sy := D03b.setWF_spec hc wy
-  have hcs : D03b.capFree (.set e) = true := hc
-  have h1 := D03b.equals_set_plain hc hp sx sy
-  have h2 := (rawEquals_equiv_with_sets (.set e) hcs _ _ _ sx.g sy.g sy.g).1
-  have e2 : rawB (D03b.enc (.set e)) (D03b.canon (.set e) (.sset ix xs)) (D03b.canon (.set e) (.sset iy ys)) =
-      rawB (.list (D03b.enc e)) (D03b.canonSet e xs) (D03b.canonSet e ys) := rfl
-  rw [h1, h2, e2]
+/-- **`Equals` = `RawEquals` on wholly known values with sets**: the clause "agrees
+with raw equality on wholly known values of the same type", beyond set-free types;
+in particular `Equals` never fails there and returns a known bool. -/
+theorem equals_eq_rawEquals_with_sets (t : Ty) (hc : D03b.capFree t = true) (a b : Payload)
+    (ha : a.deepMember t = true) (hb : b.deepMember t = true) :
+    equals ⟨t, a⟩ ⟨t, b⟩ = (rawEq ⟨t, a⟩ ⟨t, b⟩).map boolVal ∧
+    (equals ⟨t, a⟩ ⟨t, b⟩ = .ok (boolVal true) ↔ rawEq ⟨t, a⟩ ⟨t, b⟩ = .ok true) := by
+  have wa := D03b.W.of ha
+  have wb := D03b.W.of hb
+  rw [D03b.equals_full hc wa wb, (rawEquals_equiv_with_sets t hc a b b wa.m.1 wb.m.1 wb.m.1).1]
   refine ⟨rfl, ?_⟩
-  cases rawB (.list (D03b.enc e)) (D03b.canonSet e xs) (D03b.canonSet e ys) <;> simp [boolVal]
+  simp only [D03b.R']
+  cases rawB (D03b.enc t) (D03b.canon t a) (D03b.canon t b) <;> simp [boolVal]
 
-/-- …so on such set values **`Equals` is reflexive, symmetric and transitive**, never
-fails, and **`Equals`-true set values have the same hash text and `Hash`**. -/
-theorem equals_equiv_sets (e : Ty) (hc : D03b.capFree e = true) (hp : e.plain = true) (ix iy iz : List Int)
-    (xs ys zs : List Payload) (wx : Payload.setWF e ix xs = true) (wy : Payload.setWF e iy ys = true)
-    (wz : Payload.setWF e iz zs = true) :
-    equals ⟨.set e, .sset ix xs⟩ ⟨.set e, .sset ix xs⟩ = .ok (boolVal true) ∧
-    equals ⟨.set e, .sset ix xs⟩ ⟨.set e, .sset iy ys⟩ = equals ⟨.set e, .sset iy ys⟩ ⟨.set e, .sset ix xs⟩ ∧
-    (equals ⟨.set e, .sset ix xs⟩ ⟨.set e, .sset iy ys⟩ = .ok (boolVal true) →
-      equals ⟨.set e, .sset iy ys⟩ ⟨.set e, .sset iz zs⟩ = .ok (boolVal true) →
-      equals ⟨.set e, .sset ix xs⟩ ⟨.set e, .sset iz zs⟩ = .ok (boolVal true)) ∧
-    (equals ⟨.set e, .sset ix xs⟩ ⟨.set e, .sset iy ys⟩ = .ok (boolVal true) →
-      hashBytes ⟨.set e, .sset ix xs⟩ = hashBytes ⟨.set e, .sset iy ys⟩ ∧
-      Value.hash ⟨.set e, .sset ix xs⟩ = Value.hash ⟨.set e, .sset iy ys⟩) := by
-  have sx := D03b.setWF_spec hc wx
-  have sy := D03b.setWF_spec hc wy
-  have sz := D03b.setWF_spec hc wz
-  have hcs : D03b.capFree (.set e) = true := hc
-  have q := rawEquals_equiv_with_sets (.set e) hcs _ _ _ sx.g sy.g sz.g
-  have exx := equals_eq_rawEquals_sets e hc hp ix ix xs xs wx wx
-  have exy := equals_eq_rawEquals_sets e hc hp ix iy xs ys wx wy
-  have eyx := equals_eq_rawEquals_sets e hc hp iy ix ys xs wy wx
-  have eyz := equals_eq_rawEquals_sets e hc hp iy iz ys zs wy wz
-  have exz := equals_eq_rawEquals_sets e hc hp ix iz xs zs wx wz
-  refine ⟨exx.2.mpr q.2.1, by rw [exy.1, eyx.1, q.2.2.1], fun h1 h2 => exz.2.mpr (q.2.2.2 (exy.2.mp h1) (eyz.2.mp h2)),
-    fun h => rawEquals_same_hash_with_sets (.set e) hcs _ _ sx.g sy.g sx.ints sy.ints (exy.2.mp h)⟩
+/-- …so there **`Equals` is reflexive, symmetric and transitive, and `Equals`-true
+values have the same hash text and `Hash`** ("any two values that are equal have the
+same hash", for values with sets). -/
+theorem equals_equiv_with_sets (t : Ty) (hc : D03b.capFree t = true) (a b c : Payload)
+    (ha : a.deepMember t = true) (hb : b.deepMember t = true) (hc' : c.deepMember t = true) :
+    equals ⟨t, a⟩ ⟨t, a⟩ = .ok (boolVal true) ∧
+    equals ⟨t, a⟩ ⟨t, b⟩ = equals ⟨t, b⟩ ⟨t, a⟩ ∧
+    (equals ⟨t, a⟩ ⟨t, b⟩ = .ok (boolVal true) → equals ⟨t, b⟩ ⟨t, c⟩ = .ok (boolVal true) →
+      equals ⟨t, a⟩ ⟨t, c⟩ = .ok (boolVal true)) ∧
+    (equals ⟨t, a⟩ ⟨t, b⟩ = .ok (boolVal true) →
+      hashBytes ⟨t, a⟩ = hashBytes ⟨t, b⟩ ∧ Value.hash ⟨t, a⟩ = Value.hash ⟨t, b⟩) := by
+  have wa := D03b.W.of ha
+  have wb := D03b.W.of hb
+  have wc := D03b.W.of hc'
+  have q := rawEquals_equiv_with_sets t hc a b c wa.m.1 wb.m.1 wc.m.1
+  have eaa := equals_eq_rawEquals_with_sets t hc a a ha ha
+  have eab := equals_eq_rawEquals_with_sets t hc a b ha hb
+  have eba := equals_eq_rawEquals_with_sets t hc b a hb ha
+  have ebc := equals_eq_rawEquals_with_sets t hc b c hb hc'
+  have eac := equals_eq_rawEquals_with_sets t hc a c ha hc'
+  refine ⟨eaa.2.mpr q.2.1, by rw [eab.1, eba.1, q.2.2.1], fun h1 h2 => eac.2.mpr (q.2.2.2 (eab.2.mp h1) (ebc.2.mp h2)),
+    fun h => rawEquals_same_hash_with_sets t hc a b wa.m.1 wb.m.1 wa.m.2.2 wb.m.2.2 (eab.2.mp h)⟩
 
-/-- the members of a SET OF SETS: well-formed set nodes of element type `e` -/
-def SetMember (e : Ty) : Type := { p : Payload // Payload.setMemberWF e p = true }
+/-- the admitted members of a set whose element type may itself contain sets -/
+def DeepMember (e : Ty) : Type := { p : Payload // p.deepMember e = true }
 
-/-- `setRules{set e}` restricted to those members (the very functions of `ctyRules (set e)`) -/
-def ctyRulesOnSets (e : Ty) : Rules (SetMember e) where
-  hash := fun p => (ctyRules (.set e)).hash p.1
-  equiv := fun a b => (ctyRules (.set e)).equiv a.1 b.1
-  less := (ctyRules (.set e)).less.map fun l a b => l a.1 b.1
+/-- `setRules{e}` restricted to those members (the very functions of `ctyRules e`) -/
+def ctyRulesOnDeep (e : Ty) : Rules (DeepMember e) where
+  hash := fun p => (ctyRules e).hash p.1
+  equiv := fun a b => (ctyRules e).equiv a.1 b.1
+  less := (ctyRules e).less.map fun l a b => l a.1 b.1
 
-/-- **cty's `setRules` meet the contract of `cty/set` for SETS OF SETS**:
-`Equivalent` is an equivalence on well-formed set members and equivalent set
-members hash alike — so every `ValueSet` history over sets of sets refines
-mathematical sets. -/
-theorem cty_rules_lawful_sets_of_sets (e : Ty) (hc : D03b.capFree e = true) (hp : e.plain = true) :
-    (ctyRulesOnSets e).Lawful := by
-  have dest : ∀ a : SetMember e, ∃ ids vs, a.1 = .sset ids vs ∧ Payload.setWF e ids vs = true := fun a => by
-    obtain ⟨p, hp'⟩ := a
-    cases p <;> simp [Payload.setMemberWF] at hp'
-    exact ⟨_, _, rfl, hp'⟩
-  have eqv : ∀ a b : SetMember e, (ctyRulesOnSets e).equiv a b = true ↔
-      equals ⟨.set e, a.1⟩ ⟨.set e, b.1⟩ = .ok (boolVal true) := fun a b => by
-    obtain ⟨ix, xs, ea, wa⟩ := dest a
-    obtain ⟨iy, ys, eb, wb⟩ := dest b
-    have h := (equals_eq_rawEquals_sets e hc hp ix iy xs ys wa wb).1
-    simp only [ctyRulesOnSets, ctyRules, ea, eb, h]
-    cases hr : rawEq ⟨.set e, .sset ix xs⟩ ⟨.set e, .sset iy ys⟩ <;> simp [Res.map, boolVal]
-    rename_i r
-    cases r <;> simp [Value.isMarked, Payload.isMarked, Value.isTrue]
+/-- **cty's `setRules` meet the contract of `cty/set` for element types that contain
+sets** (sets of sets, sets of lists of sets, sets of objects with set attributes …):
+`Equivalent` is an equivalence on the admitted members and equivalent members hash
+alike. -/
+theorem cty_rules_lawful_with_sets (e : Ty) (hc : D03b.capFree e = true) : (ctyRulesOnDeep e).Lawful := by
+  have eqv : ∀ a b : DeepMember e, (ctyRulesOnDeep e).equiv a b = true ↔
+      equals ⟨e, a.1⟩ ⟨e, b.1⟩ = .ok (boolVal true) := fun a b => by
+    have h := D03b.equals_full hc (D03b.W.of a.2) (D03b.W.of b.2)
+    simp only [ctyRulesOnDeep, ctyRules, h]
+    cases D03b.R' e a.1 b.1 <;> simp [boolVal, Value.isMarked, Payload.isMarked, Value.isTrue]
   refine ⟨fun a => ?_, fun a b h => ?_, fun a b c h1 h2 => ?_, fun a b h => ?_⟩
-  · obtain ⟨ix, xs, ea, wa⟩ := dest a
-    rw [eqv, ea]; exact (equals_equiv_sets e hc hp ix ix ix xs xs xs wa wa wa).1
-  · obtain ⟨ix, xs, ea, wa⟩ := dest a
-    obtain ⟨iy, ys, eb, wb⟩ := dest b
-    rw [eqv] at h ⊢; rw [ea, eb] at h ⊢
-    rw [← (equals_equiv_sets e hc hp ix iy iy xs ys ys wa wb wb).2.1]; exact h
-  · obtain ⟨ix, xs, ea, wa⟩ := dest a
-    obtain ⟨iy, ys, eb, wb⟩ := dest b
-    obtain ⟨iz, zs, ec, wc⟩ := dest c
-    rw [eqv] at h1 h2 ⊢; rw [ea, eb] at h1; rw [eb, ec] at h2; rw [ea, ec]
-    exact (equals_equiv_sets e hc hp ix iy iz xs ys zs wa wb wc).2.2.1 h1 h2
-  · obtain ⟨ix, xs, ea, wa⟩ := dest a
-    obtain ⟨iy, ys, eb, wb⟩ := dest b
-    rw [eqv] at h; rw [ea, eb] at h
-    have := ((equals_equiv_sets e hc hp ix iy iy xs ys ys wa wb wb).2.2.2 h).2
-    simp only [ctyRulesOnSets, ctyRules, ea, eb, this]
+  · rw [eqv]; exact (equals_equiv_with_sets e hc a.1 a.1 a.1 a.2 a.2 a.2).1
+  · rw [eqv] at h ⊢
+    rw [← (equals_equiv_with_sets e hc a.1 b.1 b.1 a.2 b.2 b.2).2.1]; exact h
+  · rw [eqv] at h1 h2 ⊢
+    exact (equals_equiv_with_sets e hc a.1 b.1 c.1 a.2 b.2 c.2).2.2.1 h1 h2
+  · rw [eqv] at h
+    have := ((equals_equiv_with_sets e hc a.1 b.1 b.1 a.2 b.2 b.2).2.2.2 h).2
+    simp only [ctyRulesOnDeep, ctyRules, this]
 
-/-- **Value sets of sets refine mathematical sets** (`set_refines`, `set_inv` at
-`setRules{set e}`): every history keeps the invariant, ends in the mathematical
-results and answers every call as the mathematical sets dictate. -/
-theorem valueSet_refines_sets_of_sets (e : Ty) (hc : D03b.capFree e = true) (hp : e.plain = true)
-    (ops : List (SetOp (SetMember e))) (st : List (SetImpl (SetMember e)))
-    (h : ∀ i, SetImpl.Inv (ctyRulesOnSets e) (SetImpl.getReg st i)) :
-    (∀ i, SetImpl.Inv (ctyRulesOnSets e) (SetImpl.getReg (SetImpl.runRegs (ctyRulesOnSets e) ops st).1 i)) ∧
-    SetImpl.absRegs (ctyRulesOnSets e) (SetImpl.runRegs (ctyRulesOnSets e) ops st).1 =
-      SetImpl.specRun (ctyRulesOnSets e) ops (SetImpl.absRegs (ctyRulesOnSets e) st) ∧
-    SetImpl.OutsOk (ctyRulesOnSets e) (SetImpl.absRegs (ctyRulesOnSets e) st) ops
-      (SetImpl.runRegs (ctyRulesOnSets e) ops st).2 :=
-  have hR := cty_rules_lawful_sets_of_sets e hc hp
+/-- **Value sets whose members contain sets refine mathematical sets** (`set_refines`,
+`set_inv` at `setRules{e}`): every history keeps the invariant, ends in the
+mathematical results and answers every call as the mathematical sets dictate. -/
+theorem valueSet_refines_with_sets (e : Ty) (hc : D03b.capFree e = true)
+    (ops : List (SetOp (DeepMember e))) (st : List (SetImpl (DeepMember e)))
+    (h : ∀ i, SetImpl.Inv (ctyRulesOnDeep e) (SetImpl.getReg st i)) :
+    (∀ i, SetImpl.Inv (ctyRulesOnDeep e) (SetImpl.getReg (SetImpl.runRegs (ctyRulesOnDeep e) ops st).1 i)) ∧
+    SetImpl.absRegs (ctyRulesOnDeep e) (SetImpl.runRegs (ctyRulesOnDeep e) ops st).1 =
+      SetImpl.specRun (ctyRulesOnDeep e) ops (SetImpl.absRegs (ctyRulesOnDeep e) st) ∧
+    SetImpl.OutsOk (ctyRulesOnDeep e) (SetImpl.absRegs (ctyRulesOnDeep e) st) ops
+      (SetImpl.runRegs (ctyRulesOnDeep e) ops st).2 :=
+  have hR := cty_rules_lawful_with_sets e hc
   ⟨set_inv hR ops st h, set_refines hR ops st h⟩
+
+/-- the carrier holds a list of sets, an object with a set attribute and a set of sets -/
+example :
+    Payload.deepMember (.list (.set .string))
+      (.seq [.sset [(ctyRules .string).hash (.s "a"), (ctyRules .string).hash (.s "b")] [.s "a", .s "b"], .sset [] [], .null]) = true ∧
+    Payload.deepMember (.object ["s"] [.set .number] [])
+      (.smap ["s"] [.sset [(ctyRules .number).hash (.n (.fin false 1 70 53))] [.n (.fin false 1 70 53)]]) = true ∧
+    Payload.deepMember (.set (.set .bool))
+      (.sset [(ctyRules (.set .bool)).hash (.sset [(ctyRules .bool).hash (.b true)] [.b true])]
+        [.sset [(ctyRules .bool).hash (.b true)] [.b true]]) = true := by decide +kernel
 
 /-- well-formed set nodes exist: the two sets `{"a","b"}` built in either order (same
 ids, members stored in bucket order), a set of two integers at different
